@@ -575,6 +575,9 @@ fn run_fname_gen(r: &mut Rng, n: u64, any_col: bool) {
         if toks.is_empty() { continue; }
         // the tokens come from two original files (a helper inlined into a function), some from none: the walk over the minified text does not care
         if i % 3 == 0 { for t in toks.iter_mut() { match r.below(6) { 0 | 1 => { t.src = 1; } 2 => { t.src = !0; t.name = !0; } _ => {} } } }
+        // some tokens are range mappings: a position inside the range is answered from the token's own column in the minified text, like any other
+        // (chosen without the generator's random state, so that the rest of the stream is what it was)
+        if !any_col && i % 4 == 1 { for t in toks.iter_mut() { if t.src != !0 && (t.dc as u64 + i) % 3 == 0 { t.range = true; } } }
         let sm = build_map(2, 4, &toks); let sorted: Vec<Tok> = sm.tokens().map(|t| raw_of(&t)).collect();
         for q in 0..6 {
             let ti = r.below(sorted.len() as u64) as usize;
